@@ -37,6 +37,7 @@ type Frame struct {
 	loops    *loopInfo
 	loopFrames map[*ssa.BasicBlock]*loopFrame
 	allocSeq map[*ssa.Alloc]int
+	loopPre  map[*ssa.BasicBlock]*State
 	params   []Val
 	freeVars []Val
 	isGo     bool
@@ -63,6 +64,12 @@ func (f *Frame) clone() *Frame {
 	n.active = make(map[*ssa.BasicBlock]bool, len(f.active))
 	for k, v := range f.active {
 		n.active[k] = v
+	}
+	if f.loopPre != nil {
+		n.loopPre = make(map[*ssa.BasicBlock]*State, len(f.loopPre))
+		for k, v := range f.loopPre {
+			n.loopPre[k] = v
+		}
 	}
 	if f.allocSeq != nil {
 		n.allocSeq = make(map[*ssa.Alloc]int, len(f.allocSeq))
@@ -695,6 +702,10 @@ func (x *Exec) jump(st *State, fr *Frame, from, to *ssa.BasicBlock) {
 			x.countPath()
 			return
 		}
+		if fr.loopPre == nil {
+			fr.loopPre = map[*ssa.BasicBlock]*State{}
+		}
+		fr.loopPre[to] = st.Clone()
 		x.checkInvariants(st, fr, lc, n, "inv-init", to)
 		// cut: havoc what the loop may modify, assume the invariant, continue
 		x.havocLoop(st, fr, to)
@@ -785,6 +796,7 @@ func (x *Exec) checkInvariants(st *State, fr *Frame, lc *LoopContract, n int, ki
 		return
 	}
 	env := x.envFor(st, fr)
+	env.loopPre = fr.loopPre[hdr]
 	x.bindLoopVars(env, st, fr, hdr)
 	for _, c := range lc.Invariants {
 		g, err := env.EvalBool(c.Expr)
@@ -812,6 +824,7 @@ func (x *Exec) assumeInvariants(st *State, fr *Frame, lc *LoopContract, n int, h
 		return
 	}
 	env := x.envFor(st, fr)
+	env.loopPre = fr.loopPre[hdr]
 	x.bindLoopVars(env, st, fr, hdr)
 	for _, c := range lc.Invariants {
 		g, err := env.EvalBool(c.Expr)
